@@ -150,7 +150,7 @@ Print Assumptions logql_log_partial_parsers.
 
 (* its hypotheses are met by an ordinary query: |= "lev" | json lvl="level", m="msg" | lvl="info" | drop b, m="nope" != "zzz"
    | json lvl="nothing" (limit 1, forward, cluster table names) over two lines of one stream; the SELECT the planners build
-   evaluates to the one surviving line with its final labels (lvl overwritten by the empty extraction, b dropped) and the
+   evaluates to the one surviving line with its final labels (lvl kept: the last extraction finds nothing and writes no label since the repair json-missing-path-overwrites; b dropped) and the
    fingerprint of the last json stage *)
 Theorem logql_log_partial_parsers_guards_met :
   in_fragment2 ex2_query = true /\ oracle_ok no_re no_float ex2_query /\ ctx_ok ex_ctx = true /\ db_ok ex_ctx ex2_db
@@ -158,6 +158,6 @@ Theorem logql_log_partial_parsers_guards_met :
   /\ match log_select ex2_query ex_ctx with
      | Some sel => option_map (map row_out) (eval no_re no_float ex2_json ex2_hash LogqlSemProofs.tie_id (to_sqldb ex_ctx ex2_db) sel)
      | None => None end
-     = Some [Some {| o_fp := 102; o_labels := [("lvl", ""); ("m", "ok")]; o_line := ex2_line; o_ts := 1700000000000000005 |}].
+     = Some [Some {| o_fp := 102; o_labels := [("lvl", "info"); ("m", "ok")]; o_line := ex2_line; o_ts := 1700000000000000005 |}].
 Proof. exact partial_parsers_guards_met. Qed.
 Print Assumptions logql_log_partial_parsers_guards_met.
